@@ -351,6 +351,7 @@ class SimpleCorrelator(AbstractCorrelator):
                 )
                 if segment_status:
                     segment_status.status[str(seq_num)] = STATUS_EXPIRED
+                    self._segment_status_store[str(ref_num)] = segment_status  # persist the change
                     # This was the last open segment if status is neither SENDING nor SENT.
                     # Whether the others timed out or were rejected, the message has failed.
                     if self.get_cumulated_status(ref_num) in (STATUS_EXPIRED, STATUS_FAILED):
@@ -381,8 +382,8 @@ class SimpleCorrelator(AbstractCorrelator):
                         {str(seq): STATUS_SENDING for seq in range(1, total_segments + 1)},
                         smpp_message,
                     )
-                    self._segment_status_store[key] = segment_status
                 segment_status.status[str(seq_num)] = STATUS_SENDING
+                self._segment_status_store[key] = segment_status
 
     async def put_delivery(self, smsc_message_id: str, submit_sm: SubmitSm) -> None:
         await self._remove_expired()
@@ -443,6 +444,7 @@ class SimpleCorrelator(AbstractCorrelator):
                             else:
                                 segment_status.status[str(seq_num)] = STATUS_FAILED
                                 segment_status.last_response = response
+                        self._segment_status_store[str(ref_num)] = segment_status  # persist the change
         await self._remove_expired()
         return smpp_message
 
@@ -475,6 +477,7 @@ class SimpleCorrelator(AbstractCorrelator):
                 segment_status.status[str(seq_num)] = error_code
                 if error_code > 0 or not segment_status.last_receipt:
                     segment_status.last_receipt = receipt
+                self._segment_status_store[str(ref_num)] = segment_status  # persist the change
         await self._remove_expired()
         return submit_sm
 
